@@ -20,6 +20,8 @@ pub enum Path {
     Insert,
     /// unstable_blocks::push below validation (mainnet / testnet)
     Push,
+    /// model only: generates a universe of valid regtest blocks without touching the canister
+    Dry,
 }
 
 #[derive(Clone, Copy, Debug, PartialEq)]
@@ -128,8 +130,10 @@ impl Hist {
         let mut diffs = HashMap::new();
         let model;
         match cfg.path {
-            Path::Heartbeat | Path::Insert => {
-                world::reset(&wcfg);
+            Path::Heartbeat | Path::Insert | Path::Dry => {
+                if cfg.path != Path::Dry {
+                    world::reset(&wcfg);
+                }
                 let g = gen::genesis(cfg.net);
                 let pb = parse::parse_block(&gen::block_bytes(&g)).expect("genesis parses");
                 model = Model::new(cfg.net, cfg.threshold, &pb, 1);
@@ -362,7 +366,7 @@ impl Hist {
     /// Generates and delivers one block on `parent`. Returns the hash if the canister admitted it.
     pub fn add_block_on(&mut self, parent: &H, ctx: &mut Ctx) -> Option<H> {
         let block = self.gen_block(parent);
-        let d = if self.cfg.path == Path::Heartbeat { 1 } else { self.next_difficulty() };
+        let d = if self.cfg.path == Path::Heartbeat || self.cfg.path == Path::Dry { 1 } else { self.next_difficulty() };
         self.deliver(block, d, ctx)
     }
 
@@ -372,6 +376,7 @@ impl Hist {
         let hash = pb.hash;
         let prev_best = self.model.best_chains()[0].clone();
         let res: Out<Result<(), String>> = match self.cfg.path {
+            Path::Dry => Out::Ok(Ok(())),
             Path::Insert => world::insert_block(&block, Some(difficulty)),
             Path::Push => world::push_block(&block, Some(difficulty)),
             Path::Heartbeat => {
